@@ -237,6 +237,70 @@ theorem png_no_rows_is_error (predictor colors columns bpc : Nat) (h : 10 ≤ pr
     · rw [if_pos h1]; dsimp only; rw [if_pos (by simp)]
     · rw [if_neg h1]
 
+/-! ## The converse: the decoder accepts only encoder-shaped streams and inverts them (PNG) -/
+
+theorem geometry_some (colors columns bpc rb bpp : Nat)
+    (h : Pred.geometry colors columns bpc = some (rb, bpp)) :
+    rb = PredSpec.rowBytes columns colors bpc ∧ bpp = PredSpec.bytesPerPixel colors bpc := by
+  by_cases hb : bpc = 1 ∨ bpc = 2 ∨ bpc = 4 ∨ bpc = 8 ∨ bpc = 16
+  · by_cases h1 : colors * bpc < 18446744073709551616
+    · by_cases h2 : columns * colors * bpc < 18446744073709551616
+      · rw [geometry_eq colors columns bpc hb h1 h2] at h
+        simp only [Option.some.injEq, Prod.mk.injEq] at h
+        exact ⟨h.1.symm, h.2.symm⟩
+      · rw [Nat.mul_assoc] at h2
+        simp [Pred.geometry, Pred.checkedMul, Pred.usizeLim, hb, h1, h2] at h
+    · simp [Pred.geometry, Pred.checkedMul, Pred.usizeLim, hb, h1] at h
+  · simp [Pred.geometry, hb] at h
+
+/-- **png_decode_sound_partial** (converse of the round trip, PNG predictors): whenever the decoder returns a
+    value for ANY data and ANY colours/columns/bits, that value is a list of rows of `rowBytes` bytes
+    whose encoding by the forward filter of the specification is exactly the data it was given.
+    Together with `predictor_roundtrip` the decoder is the two-sided inverse of the PNG forward filter,
+    and it accepts nothing but encoder-shaped streams.
+    FULL statement wanted: the same for TIFF predictor 2 (`predictor = 2`, 8/16-bit samples).  `_partial`:
+    the TIFF converse is not proved; this goes beyond the text of C07 (round trip + no panic), which is
+    proved in full above. -/
+theorem png_decode_sound_partial (predictor colors columns bpc : Nat) (hp : 10 ≤ predictor ∧ predictor ≤ 14)
+    (data out : Bytes) (h : Pred.filter data predictor colors columns bpc = .ok out) :
+    ∃ rows : List Bytes, out = rows.flatten ∧ rows ≠ [] ∧
+      (∀ r ∈ rows, r.length = PredSpec.rowBytes columns colors bpc) ∧
+      PredSpec.predict ⟨predictor, colors, columns, bpc⟩ rows = data := by
+  unfold Pred.filter at h
+  rw [if_neg (by omega : ¬ predictor = 1), if_neg (by omega)] at h
+  cases hg : Pred.geometry colors columns bpc with
+  | none => rw [hg] at h; cases h
+  | some g =>
+    obtain ⟨rb, bpp⟩ := g
+    obtain ⟨hrb, hbpp⟩ := geometry_some _ _ _ _ _ hg
+    rw [hg] at h
+    dsimp only at h
+    rw [if_neg (by omega : ¬ predictor = 2)] at h
+    unfold Pred.checkedAdd at h
+    by_cases h4 : rb + 1 < Pred.usizeLim
+    · rw [if_pos h4] at h; dsimp only at h
+      by_cases h5 : rb + 1 > data.length
+      · rw [if_pos h5] at h; cases h
+      · rw [if_neg h5] at h
+        by_cases h6 : data.length % (rb + 1) ≠ 0
+        · rw [if_pos h6] at h; cases h
+        · rw [if_neg h6] at h
+          have hdvd : data.length = data.length / (rb + 1) * (rb + 1) :=
+            (Nat.div_mul_cancel (Nat.dvd_of_mod_eq_zero (by omega))).symm
+          have hb1 : 1 ≤ bpp := by rw [hbpp]; unfold PredSpec.bytesPerPixel; omega
+          obtain ⟨rows, hres, hcnt, hlens, henc⟩ := pngRows_reencodes predictor bpp rb hp hb1
+            (data.length / (rb + 1)) data (List.replicate rb 0) [] [] out hdvd
+            (by intro i hi; simp [hi]) h
+          refine ⟨rows, by simpa using hres, ?_, by rw [← hrb]; exact hlens, ?_⟩
+          · intro hnil
+            rw [hnil] at hcnt
+            have : data.length / (rb + 1) = 0 := by simpa using hcnt.symm
+            rw [this] at hdvd; omega
+          · unfold PredSpec.predict
+            dsimp only
+            rw [if_neg (by omega : ¬ predictor = 2), ← hbpp]; exact henc
+    · rw [if_neg h4] at h; cases h
+
 /-! ## Sample matrices (the statement's quantifier: rows x columns x colours, 8 and 16 bits) -/
 
 /-- 8-bit sample matrices: a row of `columns * colors` samples is its own byte string. -/
